@@ -11,7 +11,7 @@ from verif.bounded.sweep import sweep
 from verif.common import Ctx, Outcome, Witness
 
 FIELDS = {
-    "STATUS": ["ACTIVE", "DRAFT", "DR", "NOPE", None],
+    "STATUS": ["ACTIVE", "DRAFT", "DR", "NOPE", "active", None],
     "NAME": ["x", '"a b"', '""', None],
     "EXTRA": [None, "1"],
     "LIST": [None, "[a,b,c]", "[a,b]"],
